@@ -2249,19 +2249,24 @@ impl Procedure {
         interp.pop_scope();
 
         if let Err(mut exception) = result {
-            // FIRST, handle the return -code, -level protocol
+            // FIRST, handle the return -code, -level protocol: once the levels are used
+            // up the -code takes effect in the caller, whatever it is.
             if exception.code() == ResultCode::Return {
                 exception.decrement_level();
+
+                return match exception.code() {
+                    ResultCode::Okay => Ok(exception.value()),
+                    _ => Err(exception),
+                };
             }
 
             return match exception.code() {
                 ResultCode::Okay => Ok(exception.value()),
                 ResultCode::Error => Err(exception),
-                ResultCode::Return => Err(exception), // -level > 0
+                ResultCode::Return => Err(exception),
                 ResultCode::Break => molt_err!("invoked \"break\" outside of a loop"),
                 ResultCode::Continue => molt_err!("invoked \"continue\" outside of a loop"),
-                // TODO: Better error message
-                ResultCode::Other(_) => molt_err!("unexpected result code."),
+                ResultCode::Other(_) => Err(exception),
             };
         }
 
